@@ -1,4 +1,5 @@
 """C06 — gradient and divergence are exact on linear data and mutually adjoint."""
+import itertools
 import numpy as np
 
 from .. import repo, core, gen, extract, corr_fem, wire
@@ -34,7 +35,10 @@ class Check(BaseCheck):
         fails = []
         n_tri, n_tet, size = (24, 18, "small") if self.quick else (400, 150, "large")
         rng = gen.rng_for(self.seed, "c06")
-        for kind, stream in (("tri", gen.tria_stream(self.seed + 3, n_tri, size)), ("tet", gen.tet_stream(self.seed + 3, n_tet, size))):
+        p6 = np.array([[0, 0, 0], [1, 0, 0], [0, 1, 0], [0, 0, 1], [1, 1, 1], [-1, 0.2, 0.3]], float) + 0.05 * rng.normal(size=(6, 3))
+        tiny_tets = [dict(v=p6, t=gen.orient_tets_positive(p6, np.array([[0, 1, 2, 3], [1, 2, 3, 4], [0, 2, 1, 5]])), name="three-tets", tags={"three-tets"}),
+                     dict(v=p6[:5], t=gen.orient_tets_positive(p6[:5], np.array([[0, 1, 2, 3], [1, 2, 3, 4], [0, 1, 2, 4], [0, 1, 3, 4]])[:4]), name="four-tets", tags={"four-tets"})]
+        for kind, stream in (("tri", gen.tria_stream(self.seed + 3, n_tri, size, first=("fan3", "tetra-surface"))), ("tet", itertools.chain(tiny_tets, gen.tet_stream(self.seed + 3, n_tet, size)))):
             for kk, c in enumerate(stream):
                 sc = corr_fem.SCALES[kk % len(corr_fem.SCALES)]
                 v, t = c["v"] * sc, c["t"]
@@ -95,8 +99,10 @@ class Check(BaseCheck):
     # ---- oracle
     def search_cases(self):
         rng = gen.rng_for(self.seed, "c06s")
-        for kind, stream in (("tri", gen.tria_stream(self.seed + 4, 30 if self.quick else 200, "small")),
-                             ("tet", gen.tet_stream(self.seed + 4, 16 if self.quick else 100, "small"))):
+        p6 = np.array([[0, 0, 0], [1, 0, 0], [0, 1, 0], [0, 0, 1], [1, 1, 1], [-1, 0.2, 0.3]], float) + 0.05 * rng.normal(size=(6, 3))
+        three = [dict(v=p6, t=gen.orient_tets_positive(p6, np.array([[0, 1, 2, 3], [1, 2, 3, 4], [0, 2, 1, 5]])), name="three-tets", tags={"three-tets"})]
+        for kind, stream in (("tri", gen.tria_stream(self.seed + 4, 30 if self.quick else 200, "small", first=("fan3", "tetra-surface"))),
+                             ("tet", itertools.chain(three, gen.tet_stream(self.seed + 4, 16 if self.quick else 100, "small")))):
             for kk, c in enumerate(stream):
                 v = c["v"] * corr_fem.SCALES[kk % len(corr_fem.SCALES)]
                 f = gen.vfuncs(rng, v)[0]; X = rng.normal(size=(len(c["t"]), 3))
